@@ -18,6 +18,9 @@ RULE = (
 
 
 def run(rec, hub, tier, seed, shard, nshards, budget):
+    from ..oracles import bystand
+
+    bystand.register(hub, "C17")
     rec.require(dsm.M17, 50)
     rec.require(dsm.M17S, 20)
     n = 500 if tier == "quick" else 4000
@@ -30,6 +33,9 @@ def run(rec, hub, tier, seed, shard, nshards, budget):
         if k % 6 == 1:
             rec.set_case(driver="c17.shared", seed=seed, tier=tier, shard=shard, nshards=nshards, idx=i)
             dsm.c17_shared_model_case(rec, hub, case_nprng(seed, "c17.shared", 0, i), tier)
+        if k % 5 == 2:
+            rec.set_case(driver="c17.two", seed=seed, tier=tier, shard=shard, nshards=nshards, idx=i)
+            dsm.two_objects_case(rec, hub, case_nprng(seed, "c17.two", 0, i), tier, dsm.M17, "C17")
         if k % 4 == 0:
             rec.set_case(driver="c17.system", seed=seed, tier=tier, shard=shard, nshards=nshards, idx=i)
             dsm.c17_system_case(rec, hub, case_nprng(seed, "c17.system", 0, i), tier, i)
@@ -38,7 +44,13 @@ def run(rec, hub, tier, seed, shard, nshards, budget):
 
 
 def replay(rec, hub, case):
+    from ..oracles import bystand
+
+    bystand.register(hub, "C17")
     rec.set_case(**case)
+    if case["driver"] == "c17.two":
+        dsm.two_objects_case(rec, hub, case_nprng(case["seed"], "c17.two", 0, case["idx"]), case.get("tier", "quick"), dsm.M17, "C17")
+        return
     if case["driver"] == "c17.system":
         dsm.c17_system_case(rec, hub, case_nprng(case["seed"], "c17.system", 0, case["idx"]), case.get("tier", "quick"), case["idx"])
         return
